@@ -669,6 +669,8 @@ pub fn run_c13(tier: Tier, seed: u64, index: u64, scratch: &Scratch, rec: &mut R
 pub fn run_one(check: &str, tier: Tier, seed: u64, index: u64, scratch: &Scratch) -> RunRecord {
     let mut rec = RunRecord::default();
     match check {
+        // C07: one run in thirty-two is a pipeline run in which one step is really carried out by two functionaries
+        "C07" if (index >> 4) % 32 == 9 => crate::pipeline::run_check("C07", tier, seed, index, scratch, &mut rec),
         "C01" | "C02" | "C07" | "C15" => run_supply_check(check, tier, seed, index, scratch, &mut rec),
         "C13" => run_c13(tier, seed, index, scratch, &mut rec),
         "C06" => crate::grid::run_c06(tier, seed, index, scratch, &mut rec),
@@ -678,7 +680,7 @@ pub fn run_one(check: &str, tier: Tier, seed: u64, index: u64, scratch: &Scratch
         // one run in sixteen carries the chain out for real (in_toto_run per step, artifact transport); chosen by
         // blocks of sixteen indices so that the costly runs spread over all workers (worker = index mod workers)
         // (SCSIM_ONLY_PIPELINE: a debugging aid for sensitivity trials — every run of the check is a pipeline run)
-        "C03" | "C18" if std::env::var_os("SCSIM_ONLY_PIPELINE").is_some() => crate::pipeline::run_check(check, tier, seed, index, scratch, &mut rec),
+        "C03" | "C18" | "C07" if std::env::var_os("SCSIM_ONLY_PIPELINE").is_some() => crate::pipeline::run_check(check, tier, seed, index, scratch, &mut rec),
         "C03" if (index >> 4) % 16 == 5 => crate::pipeline::run_check("C03", tier, seed, index, scratch, &mut rec),
         "C03" => crate::rules::run_c03(tier, seed, index, scratch, &mut rec),
         "C04" => crate::ceremony::run_c04(tier, seed, index, &mut rec),
